@@ -73,7 +73,7 @@ def judge_one(ctx, labels_nodes, layers, algo, lw, dens, sp, sw, case, force=Non
         ctx.judge(stratum, VIOLATED, case, finding={"problems": probs[:4], "info": info}, key=probs[0]["rule"])
     else:
         ctx.judge(stratum, HELD, dict(case, layer_sizes=[len(L) for L in layers]) if len(ctx.samples) < 3 and info["n_layers"] >= 2 and len(labels_nodes) <= 8 else None,
-                  nontrivial=info["n_layers"] >= 2, dig=repr((case.get("labels"), case.get("options"))))
+                  nontrivial=info["n_layers"] >= 2, dig=repr((case.get("labels"), case.get("options"), case.get("spec")))[:6000])
 
 
 def run_direct(ctx, mon, labels, opts):
